@@ -14,7 +14,8 @@
 (***************************************************************************)
 EXTENDS Naturals, Sequences, FiniteSets, SequencesExt, TLC
 
-CONSTANTS NLines          \* number of distinct valid lines of the connection (labels 1..NLines, secret of label i = i)
+CONSTANTS NLines,         \* number of distinct valid lines of the connection (labels 1..NLines, secret of label i = i)
+          Cases, Eols     \* hex cases (upper?) and line ends (CRLF?) enumerated: BOOLEAN, or {TRUE} in the quick configuration (neither changes a line's kind)
 
 Lines == 1..NLines
 \* a physical line: [kind, lab, upper] ; kinds: "valid" | "comment" | "blank" | "otherlabel" | "othercr" | "dup"
@@ -27,13 +28,18 @@ VARIABLES proto,         \* "tls12" | "tls13" | "quic"
           upper, crlf,   \* hex case, line ends
           dupOf,         \* 0 or a label whose line is repeated at the end
           split,         \* lines 1..split go to source A, the rest to source B
+          dupEach,       \* every valid line is written twice in a row
+          overlap,       \* source B repeats the whole log (A holds a prefix of it) instead of holding the rest
           srcA, srcB     \* where a source is delivered: "file" | "dsbpre" (before the interface description block) | "dsb0" (before the
                          \* packets) | "dsb1" (between handshake and data) | "dsb2" (after everything)
-vars == <<proto, perm, decor, upper, crlf, dupOf, split, srcA, srcB>>
+vars == <<proto, perm, decor, upper, crlf, dupOf, dupEach, overlap, split, srcA, srcB>>
 
 Perms == { p \in [1..NLines -> Lines] : \A i, j \in 1..NLines : i # j => p[i] # p[j] }
-Text == [i \in 1..NLines |-> Valid(perm[i], upper)]
+RECURSIVE Doubled(_)
+Doubled(t) == IF t = <<>> THEN <<>> ELSE <<Head(t), Head(t)>> \o Doubled(Tail(t))
+Text0 == [i \in 1..NLines |-> Valid(perm[i], upper)]
           \o (IF dupOf = 0 THEN <<>> ELSE <<Valid(dupOf, upper)>>)
+Text == IF dupEach THEN Doubled(Text0) ELSE Text0          \* every line written twice in a row (a set delivered as a multiset)
 \* decoration lines are placed before, between and after the valid lines
 DecorSeq == SetToSeq(decor)
 WithDecor == LET n == Len(DecorSeq)
@@ -50,7 +56,7 @@ Order(src) == CASE src = "file" -> 0 [] src = "dsbpre" -> 1 [] src = "dsb0" -> 1
 \* the keylog list at a given moment = file (if any) then the DSBs read so far, in file order
 Cut == IF split > Len(WithDecor) THEN Len(WithDecor) ELSE split
 A == SubSeq(WithDecor, 1, Cut)
-B == SubSeq(WithDecor, Cut + 1, Len(WithDecor))
+B == IF overlap THEN WithDecor ELSE SubSeq(WithDecor, Cut + 1, Len(WithDecor))
 ListAt(moment) ==  \* moment: 1 = while the handshake packets are processed, 3 = after the whole capture was read
   LET first == IF Order(srcA) <= Order(srcB) THEN <<srcA, A>> ELSE <<srcB, B>>
       second == IF Order(srcA) <= Order(srcB) THEN <<srcB, B>> ELSE <<srcA, A>>
@@ -62,7 +68,7 @@ Effective(l) == LET m == SelectSeq(ListAt(LookupMoment), LAMBDA x : Usable(x) /\
                 IF m = <<>> THEN 0 ELSE l     \* all lines of a label carry the same secret (a set of secrets, not conflicting ones)
 
 Init == /\ proto \in {"tls12", "tls13", "quic"} /\ perm \in Perms /\ decor \in SUBSET {"comment", "blank", "otherlabel", "othercr"}
-        /\ upper \in BOOLEAN /\ crlf \in BOOLEAN /\ dupOf \in 0..NLines
+        /\ upper \in Cases /\ crlf \in Eols /\ dupOf \in 0..NLines /\ dupEach \in BOOLEAN /\ overlap \in BOOLEAN
         /\ split \in 0..(NLines + 1) /\ srcA \in {"file", "dsbpre", "dsb0", "dsb1", "dsb2"} /\ srcB \in {"dsb0", "dsb1", "dsb2"}
         /\ (proto = "quic" => Order(srcA) <= 1 /\ Order(srcB) <= 1)       \* QUIC: the secrets must precede the packets (as the property says)
 Next == UNCHANGED vars
